@@ -1200,6 +1200,28 @@ fn get_hbs() -> handlebars::Handlebars<'static> {
         ),
     );
     hbs.register_helper(
+        "raw_hashes",
+        Box::new(
+            |h: &Helper,
+             _: &Handlebars,
+             _: &Context,
+             _: &mut RenderContext,
+             out: &mut dyn Output|
+             -> HelperResult {
+                // The number of `#` a raw string literal needs so that its content cannot end it.
+                let s = h.param(0).unwrap().value().as_str().unwrap();
+                let mut hashes = String::from("#");
+                let mut terminator = String::from("\"#");
+                while s.contains(&terminator) {
+                    hashes.push('#');
+                    terminator.push('#');
+                }
+                out.write(&hashes)?;
+                Ok(())
+            },
+        ),
+    );
+    hbs.register_helper(
         "snake_case",
         Box::new(
             |h: &Helper,
